@@ -409,7 +409,12 @@ impl W {
         match c {
             Class::Plain => nat(&format!("u{}", letters(n, 5))),
             Class::Ibc => nat(&format!("ibc/{:064X}", n as u128 + (0xABCDu128 << 112))),
-            Class::Factory => nat(&format!("factory/migaloo1creatoraddress/u{}", letters(n, 5))),
+            // token-factory subdenoms may contain `/` and `.` (seed C18-P): same class, three spellings
+            Class::Factory => nat(&match n % 3 {
+                0 => format!("factory/migaloo1creatoraddress/u{}", letters(n, 5)),
+                1 => format!("factory/migaloo1creatoraddress/pool/{}", letters(n, 5)),
+                _ => format!("factory/migaloo1creatoraddress/u{}.v1/x", letters(n, 4)),
+            }),
             Class::TwoSlash => nat(&format!("gamm/pool/{}", letters(n, 5))),
             Class::FactoryBad => nat(&format!("factory/u{}", letters(n, 5))),
             Class::Ibc2 => nat(&format!("ibc/{:063X}/x", n as u128 + (0xABCDu128 << 112))),
